@@ -56,7 +56,15 @@ cpu_props = {
     "C09": ("Returning completes everything older: the last instructions before ret / the end are cache-missing loads, stores to uncached lines, dependent chains; MVP-4..8.", "§4 C09"),
     "C10": ("Memory dependences between in-flight loads and stores: store->load, load->store, store->store pairs at distance 1..8 to the same byte/word/line through independent address registers; MVP-4..8.", "§4 C10"),
 }
+PROVED_PART = {
+    "C01": " PROVED (Props/C01.lean): for MVP-1 and MVP-2 — for every parsed program, every initial state and every fuel, whenever the sequential run ends by ret, by running past the end or with a defined error, the cycle-accurate Lean model of the machine (tied to the Go machine by exact agreement of status, cycles and final state on every generated case) ends the same way after the same number of instructions with the specification's final registers and memory. PARTIAL: MVP-3..8 have no Lean machine model; for them this is differential exploration only.",
+    "C07": " PROVED (Props/C07.lean): for MVP-1 and MVP-2 — a run of a program that is well-formed along its sequential run returns (error value exactly for the defined errors, never a panic) after exactly the specified number of instructions and within (3 x MemoryAccess + decode + 50) x instructions cycles. PARTIAL: MVP-3..8 are covered by the tick budget and watchdog only.",
+}
 for pid, (txt, dref) in cpu_props.items():
+    if pid in PROVED_PART:
+        checks[pid] = dict(category="proof", design=dref, text=txt + PROVED_PART[pid], note=CPU_NOTE,
+                           technique="Lean 4 refinement proof (simulation of Spec.step by the machine model's step, built on C02's per-instruction theorems) for MVP-1/MVP-2; differential testing of all real machines against the Lean specification with known-finding trigger predicates for the rest")
+        continue
     checks[pid] = dict(category="exploration", design=dref, text=txt + CPU_LEVEL, note=CPU_NOTE,
                        technique="differential testing of the real machines against a Lean 4 specification (Spec.run) with generator families targeted at the property, shrinking and known-finding trigger predicates; Lean proofs only for the instruction layer (C02) and MVP-1/MVP-2 (C12)")
 
